@@ -14,7 +14,16 @@
    lengths, modes in range, equal sizes pairwise) and the modes named on each tensor are pairwise distinct;  free1 / free2 = the
    modes of tensor1 not contracted (batch modes included) / of tensor2 neither contracted nor batched, increasing;
    td_shape = their sizes;  td_ia c o / td_ib c o = the index of tensor1 / tensor2 (contracted pair k gets c_k, a free mode its
-   entry of o, a batch mode of tensor2 the entry of its partner in tensor1). *)
+   entry of o, a batch mode of tensor2 the entry of its partner in tensor1);
+   argument forms (Model/Tenalg.v): marg / mside = the Python forms of tensordot's modes / batched_modes (int, pair of ints or
+   lists, flat list), py_index n z = Python indexing of a length-n sequence (negative from the end), validate_contraction =
+   _validate_contraction_modes, tensordot_raw = tensordot as called;  mode_dot_z / mode_dot_e_z and multi_mode_dot_z /
+   multi_mode_dot_e_z = the routines with modes as Python ints, AS THE CODE IS (the einsum mode_dot and both multi_mode_dot
+   carry the negative-mode defects refuted below: known findings, fix candidate build/fix_candidates/C02_negative_modes.diff);
+   wvb / maskvb, w_okb / mask_okb = weights / mask with R (one per row) entries or a single broadcast entry;
+   einsum_sizes_ok = np.einsum's rank / equal-size check (multi_mode_dot_e).
+   Round 5 (55 statements): tensordot index formulas and core = einsum, multi_mode_dot core = einsum, validate_contraction,
+   tensordot(modes=k) = inner(n_modes=k), broadcast weights, negative modes (2 refuted / partial pairs); every other theorem full. *)
 From Coq Require Import List Arith ZArith Ring_theory Permutation Lia.
 From TLV Require Import Base.Shape Base.PyList Base.Tensor Base.BigSum Model.Base Model.Tenalg
   Proofs.TenalgProofs Proofs.TenalgProofsKR Proofs.TenalgProofsEinsum Proofs.TenalgProofsInner
